@@ -96,7 +96,7 @@ call_lib(call_t *c) {
 	int sig = gc_call(call_do, c);
 	char cl[64];
 	if (0 != sig) {
-		snprintf(cl, sizeof(cl), "%s-in-%s", (SIGALRM == sig) ? "hang" : "crash", op_name[c->op]);
+		snprintf(cl, sizeof(cl), "%s-in-%s", (SIGALRM == sig) ? "timeout" : gc_signame(sig), op_name[c->op]);
 		vh_fail(cl, "%s inside the library call (private stack pre-filled with 0x%02x)", gc_signame(sig), GC_PATTERN);
 		return (RC_CRASH);
 	}
@@ -387,9 +387,9 @@ static const char *T_VRFPB[2][2] = { { "ecdsa_verify_priv_key_be/ecdsa", "ecdsa_
 
 enum { REG_LT, REG_GE, REG_BITS, REG_UNSPEC };
 static const char *reg_names[5] = { "e<n", "e>=n", "sec1-bit-truncation", "unspecified", "e=0" };
-/* clause suffix: a hash that the library imports as the integer zero is its own regime */
+/* clause suffix: a hash that the library imports as the integer zero is its own regime (unless the standard reads other bits) */
 static uint64_t std_e_lib;
-#define reg_name_of(reg, e) ((0 == std_e_lib) ? reg_names[4] : reg_names[reg])
+#define reg_name_of(reg, e) ((REG_BITS != (reg) && 0 == std_e_lib) ? reg_names[4] : reg_names[reg])
 
 /* The integer the standard derives from a hash byte string, and the regime.
  *  ECDSA (SEC 1 4.1.3 step 5): the leftmost min(8*len, ceil(log2 n)) bits of the hash.
